@@ -94,10 +94,15 @@ def _apply_ref(ctx, state, gate, qubits, angle):
     return out
 
 
-def h_program(ctx, n, program, allow):
+def h_program(ctx, n, program, allow, registers=None):
     lw = ctx.lw
-    from qiskit import QuantumCircuit
-    qc = QuantumCircuit(n)
+    from qiskit import QuantumCircuit, QuantumRegister
+    if registers is None:
+        qc = QuantumCircuit(n)
+    else:
+        # the same program on a circuit made of several quantum registers (gates are
+        # addressed by circuit-wide qubit index, as everywhere in qiskit)
+        qc = QuantumCircuit(*[QuantumRegister(sz, f"reg{i}") for i, sz in enumerate(registers)])
     angles = {}
     for k, (gate, qubits) in enumerate(program):
         if gate in ROT:
@@ -130,12 +135,27 @@ def h_program(ctx, n, program, allow):
                 o = sum(bo[q] << q for q in range(n))
                 worst = max(worst, abs(complex(cols[bi].get(bo, 0)) - op[o, i]))
         ctx.check(worst < 1e-9, "reference-agrees-with-qiskit-operator", {"max": worst})
+    import signal
+
+    class _Hung(BaseException):
+        pass
+
+    def _alarm(signum, frame):
+        raise _Hung()
+    old = signal.signal(signal.SIGALRM, _alarm)
+    signal.alarm(60)
     try:
         circ, rules = lw.qubit.qiskit_converter(qc, allow_post_selection=allow)
-    except ValueError as e:
+    except _Hung:
+        ctx.fail("converter-returns-or-refuses", "no result after 60 s (program of at most five gates)")
+        return
+    except ValueError:
         # refusing is always allowed by the property
         ctx.check(True, "converter-refused")
         return
+    finally:
+        signal.alarm(0)
+        signal.signal(signal.SIGALRM, old)
     her = circ.heralds
     n_user = circ.input_modes
     ctx.check(n_user == 2 * n, "user-modes")
@@ -203,7 +223,13 @@ def harnesses(tier):
                 cases.append(dict(n=2, program=[a, b], allow=allow))
                 if b not in m2:
                     cases.append(dict(n=2, program=[b, a], allow=allow))
+    for op in s2 + m2:
+        for allow in (False, True):
+            cases.append(dict(n=2, program=[op], allow=allow, registers=(1, 1)))
     s3, m3 = _ops(3)
+    for op in m3:
+        for regs in ((1, 2), (2, 1), (1, 1, 1)):
+            cases.append(dict(n=3, program=[op], allow=True, registers=regs))
     for op in m3:
         cases.append(dict(n=3, program=[op], allow=True))
         cases.append(dict(n=3, program=[op], allow=False))
